@@ -477,13 +477,28 @@ func c02KDF(c *Ctx) {
 	}
 	iv, _ := inductionOf(iPhi)
 	c.Check(iv.init == 0 && iv.step == 1, "K-C02-kdf", fn, "ceil(length/32) blocks", bound, "block loop does not run i = 0,1,…", iPhi.Pos())
-	c.Check(ctPhi != nil, "K-C02-kdf", fn, "counter ct = 1,2,…", "", "no counter starting at 1 and incremented once per block", iPhi.Pos())
-	if ctPhi == nil {
-		return
-	}
-	names[ctPhi] = "ct"
 	names[iPhi] = "i"
+	if ctPhi != nil {
+		names[ctPhi] = "ct"
+	}
 	be = newBigEnv(f, names)
+	// the counter is a separate variable running 1,2,… or the loop index plus one
+	ctForm := "ct"
+	if ctPhi == nil {
+		ctForm = "add(0x1,i)"
+		usesI1 := false
+		for _, ci := range allCalls(f) {
+			if cl, ok := ci.(*ssa.Call); ok && calleeNamed(cl, "intToBytes") && be.plain(cl.Call.Args[0], cl).String() == ctForm {
+				usesI1 = true
+			}
+		}
+		c.Check(usesI1, "K-C02-kdf", fn, "counter ct = 1,2,…", "", "no counter starting at 1 and incremented once per block (neither a separate counter nor the block index plus one is hashed)", iPhi.Pos())
+		if !usesI1 {
+			return
+		}
+	} else {
+		c.Holds("K-C02-kdf", fn, "counter ct = 1,2,…", "", iPhi.Pos())
+	}
 	// hash writes inside the loop: Reset; range x -> Write(xx); Write(intToBytes(ct)); Sum(nil)
 	obj, writes, sum := hashWrites(f)
 	if obj == nil || sum == nil {
@@ -495,7 +510,7 @@ func c02KDF(c *Ctx) {
 		seq = append(seq, be.bytesOf(w.Call.Args[0], w).String())
 	}
 	// the element write is a range over x
-	okSeq := len(seq) == 2 && strings.HasPrefix(seq[0], "") && seq[1] == "call:sm2.intToBytes(ct)"
+	okSeq := len(seq) == 2 && strings.HasPrefix(seq[0], "") && seq[1] == "call:sm2.intToBytes("+ctForm+")"
 	rangeOK := false
 	if len(writes) == 2 {
 		// writes[0] argument is an element of x obtained in a range loop
@@ -549,20 +564,37 @@ func c02KDF(c *Ctx) {
 		if !ok || bi.Name() != "append" {
 			continue
 		}
-		arg := be.bytesOf(cl.Call.Args[1], cl).String()
-		switch arg {
-		case "slice(call:Sum(const:nil:[]byte),_,rem(length,0x20))":
-			// guarded by i+1 == j and length%32 != 0
-			lb := &LB{p: c.P, f: f, UsedContracts: map[string]bool{}}
-			facts := lb.branchFacts(cl.Block())
-			_ = facts
-			conds := dominatingConds(be, cl.Block())
-			truncOK = conds["eq(add(0x1,i),"+bound+")=true"] && conds["ne(rem(length,0x20),0x0)=true"]
-			if !truncOK {
-				dbg("trunc conds: %v", conds)
+		// the appended block is either chosen by two appends in two branches, or by re-slicing the digest in one
+		// branch before a single append (a phi of the two forms)
+		type alt struct {
+			v  ssa.Value
+			at *ssa.BasicBlock
+		}
+		alts := []alt{{cl.Call.Args[1], cl.Block()}}
+		if ph, isPhi := cl.Call.Args[1].(*ssa.Phi); isPhi {
+			alts = nil
+			for i, e := range ph.Edges {
+				alts = append(alts, alt{e, ph.Block().Preds[i]})
 			}
-		case "call:Sum(const:nil:[]byte)":
-			fullOK = true
+		}
+		for _, a := range alts {
+			arg := be.bytesOf(a.v, a.at.Instrs[len(a.at.Instrs)-1]).String()
+			switch arg {
+			case "slice(call:Sum(const:nil:[]byte),_,rem(length,0x20))":
+				// guarded by i+1 == j and length%32 != 0
+				conds := dominatingConds(be, a.at)
+				if sl, isSl := a.v.(*ssa.Slice); isSl {
+					for k, v := range dominatingConds(be, sl.Block()) {
+						conds[k] = v
+					}
+				}
+				truncOK = conds["eq(add(0x1,i),"+bound+")=true"] && conds["ne(rem(length,0x20),0x0)=true"]
+				if !truncOK {
+					dbg("trunc conds: %v", conds)
+				}
+			case "call:Sum(const:nil:[]byte)":
+				fullOK = true
+			}
 		}
 	}
 	c.Check(truncOK && fullOK, "K-C02-kdf", fn, "last block truncated to length%32", "", "the output must be ceil(length/32) digests with the last one cut to length%32 bytes (when non-zero)", f.Pos())
@@ -639,7 +671,7 @@ func c02ASN1(c *Ctx) {
 		}
 		D := "slice(data,0x1,_)"
 		want := "x=frombytes(slice(" + D + ",_,0x20)) y=frombytes(slice(" + D + ",0x20,0x40)) hash=slice(" + D + ",0x40,0x60) cipher=slice(" + D + ",0x60,_)"
-		c.Check(got == want, asn1Rule, fname(m), "fields taken from offsets 1/33/65/97", "", "CipherMarshal encodes "+got+", expected "+want, call.Pos())
+		c.Check(normSliceString(got) == normSliceString(want), asn1Rule, fname(m), "fields taken from offsets 1/33/65/97", "", "CipherMarshal encodes "+got+", expected "+want, call.Pos())
 	} else {
 		c.Violated(asn1Rule, fname(m), "asn1.Marshal", "CipherMarshal does not call asn1.Marshal", m.Pos())
 	}
@@ -653,7 +685,7 @@ func c02ASN1(c *Ctx) {
 		}
 		got := ube.bytesOf(ret.Results[0], ret).String()
 		want := "concat(lit(0x4),pad32(local(sm2.sm2Cipher).XCoordinate),pad32(local(sm2.sm2Cipher).YCoordinate),local(sm2.sm2Cipher).HASH,local(sm2.sm2Cipher).CipherText)"
-		c.Check(got == want, asn1Rule, fname(u), "0x04||pad32(x)||pad32(y)||hash||cipher", "", "CipherUnmarshal rebuilds "+got, ret.Pos())
+		c.Check(normSliceString(got) == normSliceString(want), asn1Rule, fname(u), "0x04||pad32(x)||pad32(y)||hash||cipher", "", "CipherUnmarshal rebuilds "+got, ret.Pos())
 	}
 	un := findCall(u, "Unmarshal")
 	if un != nil {
